@@ -187,6 +187,15 @@ pub fn run(op: &str, case: &Value) -> Result<Value> {
                 Err(e) => errv(e),
             }
         }
+        "instance_roundtrip" => {
+            // Instance -> ParametricInstance -> with_parameters(no values)
+            let inst: v1::Instance = msg(&case["instance"])?;
+            let p: v1::ParametricInstance = inst.into();
+            match p.with_parameters(v1::Parameters::default()) {
+                Ok(i) => json!({"ok": {"instance": enc(&i)}}),
+                Err(e) => errv(e),
+            }
+        }
         "pubo" => {
             let inst: v1::Instance = msg(&case["instance"])?;
             match inst.as_pubo_format() {
